@@ -149,6 +149,8 @@ class Adapter:
 
     # ---- leg C generators -----------------------------------------------------------------
     def random_cfg(self, r):
+        if r.random() < 0.2:
+            return self.wide_cfg(r)
         dw = r.choice([1, 2, 3, 4, 8, 8, 16, 32])
         aw = r.choice([3, 4, 5, 6])
         al = r.choice([0, 0, 0, 1, 2])
@@ -172,6 +174,30 @@ class Adapter:
                 continue
             regs.append({"start": start, "stop": stop, "width": width,
                          "r": int(acc != "w"), "w": int(acc != "r")})
+        regs.sort(key=lambda x: x["start"])
+        return {"dw": dw, "aw": aw, "al": 0, "regs": regs, "overlaps": r.choice(OVERLAPS)}
+
+    def wide_cfg(self, r):
+        """Scale: 9-14 address bits, registers above address 0x100, naturally aligned pairs that alias in their low
+        address bits although they are far apart, up to 12 registers."""
+        dw = r.choice([8, 8, 16, 32])
+        aw = r.choice([9, 10, 12, 14])
+        regs, used = [], []
+
+        def place(start, size, width=None, acc=None):
+            if start < 0 or start + size > (1 << aw) or any(start < e and s < start + size for s, e in used):
+                return
+            acc = acc or r.choice(["r", "w", "rw", "rw"])
+            used.append((start, start + size))
+            regs.append({"start": start, "stop": start + size, "width": size * dw if width is None else width,
+                         "r": int(acc != "w"), "w": int(acc != "r")})
+        size = r.choice([1, 2, 2, 4])
+        low = r.randrange(0, 64, size)
+        place(low, size)
+        place(low + (1 << r.randint(6, aw - 1)), size)                 # same low bits, far apart
+        for _ in range(r.randint(1, 10)):
+            size = r.choice([1, 1, 2, 3, 4])
+            place(r.randrange(0x100, 1 << aw), size, width=max(1, size * dw - r.randint(0, dw - 1)))
         regs.sort(key=lambda x: x["start"])
         return {"dw": dw, "aw": aw, "al": 0, "regs": regs, "overlaps": r.choice(OVERLAPS)}
 
